@@ -305,7 +305,7 @@ class Ctx:
         # (TLC holds the whole deserialised trace in memory, roughly 25 bytes per byte of NDJSON)
         limit = 64 * 1024 * 1024
         # events that carry no state from one to the next may start a chunk just like a "reset"
-        stateless = ('"op":"from_bytes"', '"op":"uint_enc"', '"op":"uint_dec"', '"op":"str_dec"', '"op":"parse"', '"op":"roundtrip"', '"op":"fault"')
+        stateless = ('"op":"from_bytes"', '"op":"hdr_ser"', '"op":"uint_enc"', '"op":"uint_dec"', '"op":"str_dec"', '"op":"parse"', '"op":"roundtrip"', '"op":"fault"')
         if os.path.getsize(trace) > limit:
             chunks = []
             out = None
